@@ -149,6 +149,13 @@ Definition untok (o : unop) : token :=
   | Not => TNot | BitNeg => TTilde | Plus => TOp Add | Minus => TOp Sub | Inc => TInc | Dec => TDec
   end.
 
+(* eitherIndex: a leading `*` token is turned into the literal word "*" *)
+Definition star_fix (ts : list token) : list token :=
+  match ts with TOp Mul :: r => TLit [42%N] :: r | _ => ts end.
+
+Definition starts_colon (ts : list token) : bool :=
+  match ts with TOp TernColon :: _ => true | _ => false end.
+
 Section Step.
   (* R k ts = the level-k parser with one less fuel; L = the binary loop with one less fuel *)
   Variable R : nat -> list token -> pres.
@@ -187,9 +194,7 @@ Section Step.
     | TLBrack :: _ => PErr
     | TOp TernColon :: _ => PErr
     | TLit l :: TLBrack :: ts' =>
-        (* eitherIndex: a leading `*` is turned into the literal "*" *)
-        let ts'' := match ts' with TOp Mul :: r => TLit [42%N] :: r | _ => ts' end in
-        match R 15 ts'' with
+        match R 15 (star_fix ts') with
         | POk (Some i) (TRBrack :: r) => post_step (Index l i) r
         | POk _ _ => PErr
         | e => e
@@ -234,20 +239,18 @@ Section Step.
       match v with
       | None => PErr
       | Some c =>
-          match ts' with
-          | TOp TernColon :: _ => PErr
-          | _ =>
-              match R 15 ts' with
-              | POk (Some a) (TOp TernColon :: r) =>
-                  match R 13 r with
-                  | POk (Some b) r' => POk (Some (Bin TernQuest c (Bin TernColon a b))) r'
-                  | POk None _ => PErr
-                  | e => e
-                  end
-              | POk _ _ => PErr
-              | e => e
-              end
-          end
+          if starts_colon ts' then PErr
+          else
+            match R 15 ts' with
+            | POk (Some a) (TOp TernColon :: r) =>
+                match R 13 r with
+                | POk (Some b) r' => POk (Some (Bin TernQuest c (Bin TernColon a b))) r'
+                | POk None _ => PErr
+                | e => e
+                end
+            | POk _ _ => PErr
+            | e => e
+            end
       end
     else POk v ts.
 
@@ -400,6 +403,36 @@ Fixpoint wf (e : expr) : bool :=
       | TernQuest => match y with Bin TernColon a b => wf x && wf a && wf b | _ => false end
       | TernColon => false
       | _ => if is_assign o then name_shape x && wf x && wf y else wf x && wf y
+      end
+  end.
+
+(* well-parenthesised with respect to the table: every operand sits at a level its position
+   admits (left operand of a left-associative operator: same level or tighter; right operand:
+   strictly tighter; mirrored for the right-associative ones), and the tree is [wf] *)
+Fixpoint wp (e : expr) : bool :=
+  match e with
+  | Word _ => true
+  | Index _ i => wp i
+  | Paren x => wp x
+  | Un o post x =>
+      match o with
+      | Inc | Dec => name_shape x && wp x
+      | _ => negb post && Nat.leb (level_of x) 1 && wp x
+      end
+  | Bin o x y =>
+      match o with
+      | TernQuest =>
+          match y with
+          | Bin TernColon a b =>
+              Nat.leb (level_of x) 12 && wp x && wp a && Nat.leb (level_of b) 13 && wp b
+          | _ => false
+          end
+      | TernColon => false
+      | _ =>
+          if is_assign o then name_shape x && wp x && Nat.leb (level_of y) 14 && wp y
+          else if rassoc o then
+            Nat.leb (level_of x) (pred (prec o)) && Nat.leb (level_of y) (prec o) && wp x && wp y
+          else Nat.leb (level_of x) (prec o) && Nat.leb (level_of y) (pred (prec o)) && wp x && wp y
       end
   end.
 
